@@ -538,10 +538,10 @@ SEQUENCE = ClassSpec(
 
 
 # ---- interval classes (chromosome coordinates; parent = None | noseq | chrom | chunk) ----------
-def _exons(rng, mode, k=None, strand=None):
+def _exons(rng, mode, k=None, strand=None, min_len=3):
     p, L = parent_spec(mode, rng, rng.randint(50, 90))
     lo, hi = (p[3] + 1, p[4] - 1) if p and p[0] == "chunk" else (2, L - 2)
-    bl = sorted_blocks(rng, lo, hi, k or rng.randint(1, 4), min_len=3)
+    bl = sorted_blocks(rng, lo, hi, k or rng.randint(1, 4), min_len=min_len)
     return p, L, bl, strand or rng.choice("+-")
 
 
@@ -562,7 +562,7 @@ def _cds_in(rng, bl, strand):
 
 def _t_cds(mode, k=None, strand=None, phase=False, first=0):
     def f(rng):
-        p, L, bl, st = _exons(rng, mode, k, strand)
+        p, L, bl, st = _exons(rng, mode, k, strand, min_len=6)     # every base CDS has at least one complete codon
         fr = frames_for(bl, st, first)
         if phase:
             fr = [("ph", {0: 0, 1: 2, 2: 1}[x]) for x in fr]
